@@ -2,6 +2,8 @@ package main
 
 import (
 	"flag"
+	"runtime/debug"
+	"runtime/pprof"
 	"fmt"
 	"os"
 	"runtime"
@@ -34,6 +36,7 @@ var (
 
 func main() {
 	harnessDir = verifDir + "/harness"
+	debug.SetGCPercent(400)
 	if len(os.Args) < 2 {
 		usage()
 	}
@@ -88,7 +91,13 @@ func cmdRun(args []string) int {
 	keep := fs.Int("keep", 20, "samples to keep")
 	params := paramFlags{}
 	fs.Var(params, "param", "K=V")
+	prof := fs.String("cpuprofile", "", "write cpu profile")
 	fs.Parse(args)
+	if *prof != "" {
+		f, _ := os.Create(*prof)
+		pprof.StartCPUProfile(f)
+		defer pprof.StopCPUProfile()
+	}
 	t0 := time.Now()
 	p, err := loadProgram([]string{*pkg})
 	if err != nil {
@@ -113,9 +122,9 @@ func cmdRun(args []string) int {
 func printResult(res *ExploreResult, verbose bool) {
 	fmt.Printf("harness %s params=%v: paths=%d outcomes=%v decisions=%d steps=%d maxdepth=%d wall=%.1fs\n",
 		res.Harness, res.Params, res.Paths, res.Outcomes, res.Decisions, res.Steps, res.MaxDepth, res.Wall.Seconds())
-	fmt.Printf("  solver: queries=%d sat=%d unsat=%d unknown=%d time=%.1fs slowest=%.2fs; feasibility=%d assert=%d fmtApprox=%d\n",
-		res.Solver.Queries, res.Solver.Sat, res.Solver.Unsat, res.Solver.Unknown, res.Solver.Time.Seconds(), res.Solver.SlowQuery.Seconds(), res.FeasQ, res.AssertQ, res.FmtApprox)
-	fmt.Printf("  reached: %v\n", res.Reached)
+	fmt.Printf("  solver: queries=%d sat=%d unsat=%d unknown=%d time=%.1fs slowest=%.2fs; feasibility=%d assert=%d fmtApprox=%d local(sat=%d unsat=%d)\n",
+		res.Solver.Queries, res.Solver.Sat, res.Solver.Unsat, res.Solver.Unknown, res.Solver.Time.Seconds(), res.Solver.SlowQuery.Seconds(), res.FeasQ, res.AssertQ, res.FmtApprox, res.LocalSat, res.LocalUnsat)
+	fmt.Printf("  worker time: wait=%.1fs run=%.1fs; reached: %v\n", res.WaitT.Seconds(), res.RunT.Seconds(), res.Reached)
 	if res.Incomplete != "" {
 		fmt.Printf("  INCOMPLETE: %s\n", res.Incomplete)
 	}
